@@ -130,6 +130,16 @@ class VClock:
         gn_router.Timer = VTimer
         return self
 
+    def install_ldm(self):
+        """Rebind the `time` module attribute of the LDM modules that read time.monotonic()/sleep() to this clock."""
+        import types
+        shim = types.SimpleNamespace(time=self.now, monotonic=self.monotonic, sleep=self.sleep)
+        from flexstack.facilities.local_dynamic_map import ldm_maintenance_reactive, ldm_service_reactive, ldm_maintenance
+        for mod in (ldm_maintenance_reactive, ldm_service_reactive, ldm_maintenance):
+            self._saved.append((mod, "time", mod.time))
+            mod.time = shim
+        return self
+
     def uninstall(self):
         global CURRENT
         for obj, name, val in reversed(self._saved):
